@@ -131,7 +131,7 @@ def ovf_parse(b):
                valuedim=valuedim, labels=_tokens(hdr["valuelabels"]) if "valuelabels" in hdr else None,
                units=_tokens(hdr["valueunits"]) if "valueunits" in hdr else None,
                unit1=hdr.get("valueunit"), rep=rep, check=None, payload=[], tail_ok=True,
-               count=count, data_start=pos, complete=False, vd=vd)
+               count=count, data_start=pos, complete=False, vd=vd, cols=0)
     if rep == "txt":
         vals = []
         end_seen = False
@@ -142,7 +142,10 @@ def ovf_parse(b):
                 break
             if not s or s.startswith("#"):
                 continue
-            for tok in s.split():
+            toks = s.split()
+            if not vals:
+                out["cols"] = len(toks)
+            for tok in toks:
                 vals.append(float(tok))
         out["payload"] = vals
         out["tail_ok"] = end_seen
@@ -639,7 +642,7 @@ def g_file(a, inf_ok=False):
             f"{ql(a['step'])} {ql(a['min'])} {ql(a['max'])} "
             f"{'None' if a['valuedim'] is None else '(Some ' + g.z(a['valuedim']) + ')'} "
             f"{g_optstrs(a['labels'])} {g_optstrs(a['units'])} {g_rep(a['rep'])} {gchk} "
-            f"{g.lst([gq(qv(x, inf_ok)) for x in a['payload']])} {g.b(a['tail_ok'])})")
+            f"{g.lst([gq(qv(x, inf_ok)) for x in a['payload']])} {g.nat(a['cols'])} {g.b(a['tail_ok'])})")
 
 
 def strings_ok(*xs):
